@@ -34,7 +34,7 @@ func ptG(p geometry.Point) *rt.G { return &rt.G{K: "point", P: [][2]float64{{p.X
 func runC19(r *rt.Run) {
 	k, off := 5, -2
 	if r.Thorough() {
-		k, off = 6, -3
+		k, off = 7, -3
 	}
 	L := lat.Lattice(k, off)
 	H := lat.Half(k, off)
